@@ -52,6 +52,14 @@ def check_step(inst, V, ctx, body, direction, item, feature):
         if not S.is_some(val):
             bad('shape', 'for discriminants %s the function returns %s' % (ivl.show(region), show(val)), 'unrecognised'); return None
         p = S.payload(val)
+        if p[0] == 'agg' and p[1].startswith('adt|' + inst.enum_path + '|') and not p[2]:
+            # accepted equivalent: a constant variant (safe `match` form) - it must be the specification's step for every input of the region
+            dv = inst.by_ident.get(p[1].split('|')[-1], {}).get('value')
+            wrong = [x for a, b in region for x in (a, b) if spec.at(x) != dv]
+            if wrong or any(a != b for a, b in region):
+                bad('step', '%s of the variant with discriminant %d returns the variant %s (%s), required %s' % (word, (wrong or [region[0][0]])[0], p[1].split('|')[-1], dv, spec.at((wrong or [region[0][0]])[0]))); return None
+            some_region = ivl.union(some_region, region)
+            continue
         if p[0] != 'transmute' or p[1] != inst.enum_path:
             bad('shape', 'for discriminants %s the function returns %s' % (ivl.show(region), show(val)), 'unrecognised'); return None
         t = p[2]
